@@ -83,6 +83,52 @@ def run(ctx) -> None:
                                  "values": logical, "observed": o.brief()})
     ctx.exhaustive.append("gross_range_test: 36 fail spans x 37 suspect spans x 20-value boundary series")
 
+    # the span relation is judged whatever the data: empty and all-missing series still reject a non-contained suspect span
+    if ctx.shard == 0:
+        degenerate = {"empty": (np.array([], dtype=float), []), "all-nan": (np.array([np.nan] * 3), [None] * 3),
+                      "all-none-list": ([None, None], [None] * 2),
+                      "all-masked": (np.ma.MaskedArray(np.array([1.0, 2.0]), mask=[True, True]), [None] * 2),
+                      "all-nan-2d": (np.full((2, 2), np.nan), [None] * 4)}
+        for fail in [(0, 3), (3, 0), (1, 1), (-2, 2)]:
+            for suspect in [None, (1, 2), (0, 3), (-1, 2), (1, 4), (4, 5), (2, -3)]:
+                for dname, (inp, dlog) in degenerate.items():
+                    kw = {"inp": inp, "fail_span": list(fail)}
+                    if suspect is not None:
+                        kw["suspect_span"] = list(suspect)
+                    o, _ = client.expect(ctx, "C03", "qartod.gross_range_test", kw, lambda: models.gross_range(dlog, fail, suspect),
+                                         logical={"values": dlog, "fail_span": fail, "suspect_span": suspect, "carrier": dname},
+                                         hist="gross_range")
+                    ctx.count("gross_range.calls")
+                    if o.kind == "raise":
+                        ctx.count("gross_range.rejections_observed")
+                    ctx.case(f"gr|no-present-values|{dname}|{relation(fail, suspect)}|{'raise' if o.kind == 'raise' else 'flags'}")
+        # values a hair (one ulp, 2^-40 relative) outside / inside a limit: "strictly outside" is exact at every magnitude
+        for L, H in [(0.1, 0.3), (-2.0, 3.0), (1e6, 1e6 + 1), (1e-9, 2e-9), (-1e15, 1e15), (0.30000000000000004, 0.7)]:
+            for SL, SH in [(None, None), (L + (H - L) * 0.25, H - (H - L) * 0.25)]:
+                vals = []
+                for b in (L, H, SL, SH):
+                    if b is None:
+                        continue
+                    vals += [b, float(np.nextafter(b, -np.inf)), float(np.nextafter(b, np.inf)), b * (1 - 2.0 ** -40), b * (1 + 2.0 ** -40),
+                             b * (1 - 2.0 ** -31), b * (1 + 2.0 ** -31)]
+                suspect = None if SL is None else (SL, SH)
+                kw = {"inp": np.array(vals), "fail_span": [L, H]}
+                if suspect:
+                    kw["suspect_span"] = list(suspect)
+                client.expect(ctx, "C03", "qartod.gross_range_test", kw, lambda: models.gross_range(vals, (L, H), suspect),
+                              logical={"values": vals, "fail_span": [L, H], "suspect_span": suspect, "note": "values within an ulp .. 2^-31 relative of a limit"},
+                              hist="gross_range")
+                ctx.count("gross_range.calls")
+                ctx.count("gross_range.hairline_calls")
+                ctx.case(f"gr|hairline|{L}|{'sus' if suspect else 'nosus'}")
+                if suspect is None:
+                    kw = {"inp": np.array(vals), "valid_span": (L, H), "start_inclusive": True, "end_inclusive": True}
+                    client.expect(ctx, "C03", "axds.valid_range_test", kw, lambda: models.valid_range(vals, L, H, True, True),
+                                  logical={"values": vals, "valid_span": [L, H], "start_inclusive": True, "end_inclusive": True,
+                                           "note": "values within an ulp .. 2^-31 relative of a bound"}, hist="valid_range")
+                    ctx.count("valid_range.calls")
+                    ctx.case(f"vr|hairline|{L}")
+
     # malformed spans are rejected (isfixedlength)
     if ctx.shard == 0:
         for bad in ([1], [1, 2, 3], (), "ab"):
@@ -167,6 +213,26 @@ def run(ctx) -> None:
                 ctx.count("valid_range.calls")
                 ctx.case(f"vr|time|{'lo-none' if lo is None else 'lo'}|{'hi-none' if hi is None else 'hi'}|{si}{ei}|{cname}")
     ctx.exhaustive.append("valid_range_test: all spans lo<=hi over grid+None x 4 inclusivity settings x 11 carriers")
+
+    # ---- documented defaults: a caller who passes only one (or neither) inclusivity flag gets start closed, end open
+    fvals = [*VALUES, float("nan")]
+    flog = [None if v != v else v for v in fvals]
+    for (lo, hi) in spans:
+        j += 1
+        if not ctx.mine(j):
+            continue
+        for extra in ({}, {"start_inclusive": True}, {"start_inclusive": False}, {"end_inclusive": True}, {"end_inclusive": False}):
+            si, ei = extra.get("start_inclusive", True), extra.get("end_inclusive", False)
+            for cname, inp in (("f64", np.array(fvals, dtype=float)), ("list+dtype", list(fvals))):
+                kw = {"inp": inp, "valid_span": (lo, hi), **extra}
+                if cname == "list+dtype":
+                    kw["dtype"] = np.float64
+                client.expect(ctx, "C03", "axds.valid_range_test", kw, lambda: models.valid_range(flog, lo, hi, si, ei),
+                              logical={"values": flog, "valid_span": [lo, hi], "flags_passed": extra, "carrier": cname,
+                                       "note": "omitted flags take the documented defaults (start inclusive, end exclusive)"},
+                              hist="valid_range")
+                ctx.count("valid_range.calls")
+                ctx.case(f"vr|defaults|{sorted(extra)}|{'lo-none' if lo is None else 'lo'}|{'hi-none' if hi is None else 'hi'}|{cname}")
 
     # ---- integers beyond 2**53 (float64 cannot tell neighbours apart) and datetimes outside the datetime64[ns] range
     if ctx.shard == 0:
